@@ -21,6 +21,20 @@ CALLBACK = {'requested': 'call_ll_connection_requested', 'attempt_timeout': 'cal
 
 
 def run(chk, facts, tier):
+    chk.rule('single-event-fifo', 'all connection events (lifecycle and procedure results) travel through one ring: every try_push / try_pop inside connection_callbacks names the same member, so the application '
+             'sees them in the order they happened (no callback after connection_closed)', floor=1)
+    rings = {}
+    for fn in facts.functions:
+        if fn.kind == 'pattern' and fn.q.startswith('bluetoe::link_layer::connection_callbacks::'):
+            for c in fn.body.calls('try_push') + fn.body.calls('try_pop'):
+                o = base_object(c)
+                rings.setdefault(strip_casts(o).n if o is not None else '?', []).append((fn, c))
+    if chk.require(bool(rings), 'connection_callbacks: no try_push / try_pop found'):
+        main = max(rings, key=lambda k: len(rings[k]))
+        others = sorted(k for k in rings if k != main)
+        fn0, c0 = rings[others[0]][0] if others else rings[main][0]
+        chk.instance('single-event-fifo', fn0, '%d push/pop sites on %s' % (len(rings[main]), main), not others,
+                     '' if not others else 'events are also queued in %s (%s): the order between the queues is lost - an event pushed before connection_closed can be delivered after it' % (', '.join(others), fn0.name), node=c0, key='rings')
     chk.rule('push-result-used', 'the result of events_.try_push() is consumed at every producer of connection_callbacks (a full ring must not lose a lifecycle event silently)', floor=10)
     chk.rule('event-kinds-exhaustive', 'each event_type_t enumerator is pushed by exactly one producer with its own tag and dispatched by one branch of handle_connection_events to the matching callback', floor=10)
     chk.rule('lifecycle-order', 'link layer: requested is reported on the transition to connecting, established only when state_ == connecting, closed (state_ != connecting) versus attempt timeout, '
